@@ -73,6 +73,8 @@ def _per_rank_path(db, chk, where2, TR, r, calls, ptag):
 
 
 def run(db, chk) -> None:
+    from ..specs.discipline import check_facade_stateless
+    check_facade_stateless(db, chk, "C04.R-facade-stateless", ['get_temporal_breakdown'])
     from ..specs.discipline import check_stateless
     check_stateless(db, chk, "C04.R-stateless", ['hta.analyzers.breakdown_analysis'])      # the result is a function of the arguments: no state kept between calls, caller's Trace untouched
     chk.floor("C04.R-stateless", 4)
